@@ -121,8 +121,6 @@ def main(tier):
     sets += [make_tiny_set(k) for k in ("one", "none", "limit0", "micro")]
     reqs = [cc.driver_req(s["files"], s["cfg"], batch_sizes=[1, 7, 100] if s["big"] else s.get("batch_sizes", BATCH_SIZES), lsh=s["lsh"][:2] if s["big"] else s["lsh"],
                           table="upper" if (s["big"] or i % 2) else "full") for i, s in enumerate(sets)]
-    if os.environ.get("C09_DUMP"):
-        json.dump([dict(r, kind=s_["kind"]) for r, s_ in zip(reqs, sets)], open(os.environ["C09_DUMP"], "w"))
     results = [cc.norm(x) for x in lib.driver(reqs, timeout=1800)]
     lib.log("driver %.1fs" % (time.time() - t0))
 
